@@ -88,6 +88,11 @@ def run_variant(args):
                 out['detail'] += f'{prop}: AnalysisError {e}; '
                 continue
             new = got - base
+            if v['expect'] == 'undecided':
+                # a behaviour-breaking edit that lies in a clause the static rules declare undecided: recorded, no expectation
+                out['status'] = out['status'] or 'ok'
+                out['detail'] += f'{prop}: {"reported " + str(sorted({x[0] for x in new})) if new else "not reported (declared blind spot)"}; '
+                continue
             if v['expect'] == 'fire':
                 want = v.get('rules', {}).get(prop) if isinstance(v.get('rules'), dict) else v.get('rule')
                 hit = [x for x in new if (want is None or x[0] == want or x[0].startswith(want))]
